@@ -404,6 +404,7 @@ structure Shape where
 structure Decoder where
   key : Nat                 -- Nat key of the trace name (big-endian bytes with a leading 1)
   name : String             -- trace name, e.g. "BSC_read"
+  twin : Option Nat := none -- for `X_nocancel`: index of the decoder registered as `X` in the same table
   kind : Nat                -- 0: BSD syscall (BSC_*), 1: Mach trap (MSC_*), 2: other (by name prefix)
   family : Nat              -- 0 bsd, 1 dyld, 2 fsystem, 3 mach, 4 perf, 5 trace, 6 turnstile
   func : String             -- handler function name
